@@ -124,6 +124,16 @@ let snap_oracle (prop : string) (ops : op list) (obs : string list) : string =
   let logged = ref [] and cfg = ref None and live = ref false and flushed = ref true and last_snap = ref None in
   let verdict = ref "" and checks = ref 0 in
   let seg = ref [] and seg_ok = ref true in
+  let seen = ref [] and reused = ref false in
+  let note_target c =
+    let key = (c.c_spec, (match c.c_rot with None -> false | Some _ -> true)) in
+    if List.mem key !seen then reused := true else seen := key :: !seen in
+  (* a byte sequence as the list of its lines, each with its line feed *)
+  let lines_of (b : bytes) : bytes list =
+    let rec go acc cur = function
+      | [] -> List.rev (if cur = [] then acc else List.rev cur :: acc)
+      | x :: r -> if int_of_n x = 10 then go (List.rev (x :: cur) :: acc) [] r else go acc (x :: cur) r in
+    go [] [] b in
   let direct c = (c.c_cap = None) in
   let check c snap after_stop =
     incr checks;
@@ -142,7 +152,12 @@ let snap_oracle (prop : string) (ops : op list) (obs : string list) : string =
      | "C18" ->
        if after_stop then begin
          let files = List.filter_map (fun ((_, k), d) -> if int_of_n k = 0 then Some d else None) snap in
-         if not (oracle_tiles files !logged) then fail "files-do-not-tile-the-logged-records"
+         (* every record exactly once, each file a contiguous run of the log in logging order; when the history came back to
+            a file it had written before (a reset onto the same current file, with append), that file holds several runs:
+            then the files' record sequences must merge, in order, to exactly the logged sequence *)
+         if not (oracle_tiles files !logged)
+            && not (!reused && merge_check (List.map lines_of files) (lines_of !logged)) then
+           fail "files-do-not-tile-the-logged-records"
          (* what was logged since the last start / reset_flw / reopen_output (no external rename since) is at the end of the
             family of the configuration that is in force: the records went to the newly specified file or family *)
          else if !seg_ok && not (is_suffix !seg (
@@ -161,8 +176,9 @@ let snap_oracle (prop : string) (ops : op list) (obs : string list) : string =
           | Some snap when !cfg = None -> logged := stream_of c snap
           | _ -> ());
          (match c.c_rot with None when not c.c_append && prop <> "C18" -> logged := [] | _ -> ());
-         cfg := Some c; live := true; flushed := true; prev_stop := false; seg := []; seg_ok := true
-       | OReset c -> cfg := Some c; flushed := true; if ob = "r0" then (seg := []; seg_ok := true) else seg_ok := false
+         cfg := Some c; live := true; flushed := true; prev_stop := false; seg := []; seg_ok := true; note_target c
+       | OReset c -> cfg := Some c; flushed := true; note_target c;
+         if ob = "r0" then (seg := []; seg_ok := true) else seg_ok := false
        | OExtRename _ | OExtRemove _ -> seg_ok := false
        | OWrite b | OPlain b ->
          if !live && ob = "r0" then (logged := !logged @ b; seg := !seg @ b;
